@@ -34,6 +34,8 @@ PROPS["C10"] = dict(
             dict(pkg="./utils", entry="VerifC10Mod", bounds="maxn=1024", solver="z3-new", workers=1, timeout_ms=60000, reach=["mod-done"]),
             dict(pkg="./utils", entry="VerifC10Mod", bounds="maxn=1024", solver="cvc5-int", workers=1, timeout_ms=60000, reach=["mod-done"]),
             dict(pkg="./storage", entry="VerifC10Route", bounds="maxp=4", solver="z3-new", reach=["routed"]),
+            # one partition may have lost all its replicas: the owner still depends on the id and the partition count only, the write is refused
+            dict(pkg="./storage", entry="VerifC10Route", bounds="maxp=3,noreplica=1", solver="z3-new", reach=["routed"]),
             dict(pkg="./storage", entry="VerifC10Group", bounds="maxp=4", solver="z3-new", workers=4, reach=["grouped"]),
             dict(pkg="./storage", entry="VerifC10Big", bounds="p=300", solver="z3-new", unwind=1100, conc_limit=400, reach=["big-routed"]),
             # 'every restart computes the same owner': the owner is the partition at position UuidMod(id, P) of the list, so the
@@ -45,6 +47,7 @@ PROPS["C10"] = dict(
             dict(pkg="./utils", entry="VerifC10Mod", bounds="maxn=1024", solver="z3-new", workers=1, timeout_ms=120000, reach=["mod-done"]),
             dict(pkg="./utils", entry="VerifC10Mod", bounds="maxn=1024", solver="cvc5-int", workers=1, timeout_ms=120000, reach=["mod-done"]),
             dict(pkg="./storage", entry="VerifC10Route", bounds="maxp=7", solver="z3-new", timeout_ms=60000, reach=["routed"]),
+            dict(pkg="./storage", entry="VerifC10Route", bounds="maxp=5,noreplica=1", solver="z3-new", timeout_ms=60000, reach=["routed"]),
             dict(pkg="./storage", entry="VerifC10Group", bounds="maxp=5", solver="z3-new", timeout_ms=60000, reach=["grouped"]),
             dict(pkg="./storage", entry="VerifC10Big", bounds="p=300", solver="z3-new", unwind=1100, conc_limit=400, reach=["big-routed"]),
             dict(pkg="./storage", entry="VerifC10Big", bounds="p=1024", solver="z3-new", unwind=2100, conc_limit=1100, timeout_ms=60000, reach=["big-routed"]),
@@ -148,12 +151,16 @@ PROPS["C07"] = dict(
         "quick": [
             dict(pkg="./index", entry="VerifC07", bounds="m=1", reach=["searched"]),
             dict(pkg="./index", entry="VerifC07", bounds="m=2,maxlevel=0,modes=2,maxk=3", reach=["searched"]),
+            # link budgets left to newHnswConfig's defaults (Mmax configured below M, Mmax0 defaulted)
+            dict(pkg="./index", entry="VerifC07", bounds="m=2,maxlevel=0,modes=1,maxk=2,maxef=4,defaults=1", reach=["searched"]),
         ],
         "thorough": [
             dict(pkg="./index", entry="VerifC07", bounds="m=1,maporder=1", reach=["searched"]),
             dict(pkg="./index", entry="VerifC07", bounds="m=1,dim=2,grid=7,modes=2", reach=["searched"]),
             dict(pkg="./index", entry="VerifC07", bounds="m=2,maxlevel=0,modes=4,maxk=2,maxef=5", reach=["searched"]),
             dict(pkg="./index", entry="VerifC07", bounds="m=2,maxlevel=1,modes=1,maxk=3,maxef=4", reach=["searched"]),
+            dict(pkg="./index", entry="VerifC07", bounds="m=2,maxlevel=0,modes=4,maxk=2,maxef=5,defaults=1", reach=["searched"]),
+            dict(pkg="./index", entry="VerifC07", bounds="m=2,maxlevel=1,modes=2,maxk=2,maxef=4,defaults=2", reach=["searched"]),
         ],
     },
     outside="the recall floor on random sets of thousands of items (statistical, not decided); M>2; Euclidean/cosine kernels (Hnsw only compares distances; the Manhattan kernel is the one executed); levels above 1",
@@ -282,11 +289,16 @@ PROPS["C18"] = dict(
                   # scripted drivers over the REAL catalogue: DatasetManager.process (creates/deletes holding the catalogue lock), the
                   # real Allocator loop with local partitions and its proposals (to a catalogue group that never commits), real Conn
                   dict(pkg="./storage", entry="VerifC18Catalogue", bounds="preempt=0", unwind=400, no_native=True, reach=["drivers-returned", "end"]),
+                  # the burst a restart replays: 12 further membership changes applied back to back (more than the allocator's
+                  # notification buffer holds) while the loop is busy proposing for two watched partitions; one schedule per history
+                  dict(pkg="./storage", entry="VerifC18Catalogue", bounds="preempt=0,burst=12,det=1", unwind=400, no_native=True, reach=["drivers-returned", "end"]),
                   # restart with existing datasets and joins during creates/deletes on real Servers over the REAL etcd/raft
                   dict(pkg=".", entry="VerifC14Raft", bounds="members=2", unwind=4000, no_native=True, reach=["settled", "restarted", "end"])],
         "thorough": [dict(pkg="./storage", entry="VerifC18", bounds="preempt=3,race=1", reach=["drivers-returned", "end"]),
                      dict(pkg="./storage", entry="VerifC18", bounds="preempt=2,replicaless=1,race=1", reach=["drivers-returned", "end"]),
                      dict(pkg="./storage", entry="VerifC18Catalogue", bounds="preempt=0", unwind=400, no_native=True, reach=["drivers-returned", "end"]),
+                     dict(pkg="./storage", entry="VerifC18Catalogue", bounds="preempt=0,burst=14,det=1", unwind=400, no_native=True, reach=["drivers-returned", "end"]),
+                     dict(pkg="./storage", entry="VerifC18Catalogue", bounds="preempt=0,burst=3", unwind=400, no_native=True, max_seconds=3000, reach=["drivers-returned", "end"]),
                      dict(pkg=".", entry="VerifC14Raft", bounds="members=3", unwind=4000, no_native=True, max_seconds=5400, reach=["settled", "restarted", "end"])],
     },
     outside="in the scripted-driver harness the watched partitions live elsewhere (loadRaft/unloadRaft/proposeAddNode are not exercised there) and its raft commits at once; the real-raft harness (VerifC14Raft) covers restart with existing datasets, a join during creates/deletes, local partitions and the allocator's proposals, within: 2 members (3 thorough), <=2 datasets with 1 partition, one restart, one message fault (thorough), one deterministic goroutine schedule per history",
@@ -324,6 +336,9 @@ PROPS["C12"] = dict(
             dict(pkg="./services", entry="VerifC12", bounds="rpclo=0,rpchi=2", reach=["dataset-created", "handler-returned", "end"]),
             dict(pkg="./services", entry="VerifC12", bounds="rpclo=3,rpchi=8,mindim=1,minp=1,minr=1,spaces=1,maxdim=1,levelshapes=1", reach=["dataset-created", "handler-returned", "end"]),
             dict(pkg="./services", entry="VerifC12", bounds="rpclo=9,rpchi=17,maxdim=1", reach=["dataset-created", "handler-returned", "end"]),
+            # catalogue shapes: a negative metric enum value; partitions that lost their only replica (the committed change the allocator proposes when a node leaves)
+            dict(pkg="./services", entry="VerifC12", bounds="rpclo=0,rpchi=2,spaces=3,mindim=1,maxdim=1,minp=1,maxp=1,minr=1,idshapes=2,vecshapes=1,valshapes=1,metashapes=1,noreplica=1", reach=["dataset-created", "handler-returned", "end"]),
+            dict(pkg="./services", entry="VerifC12", bounds="rpclo=3,rpchi=17,noreplica=1,spaces=1,mindim=1,maxdim=1,minp=1,maxp=1,minr=1,idshapes=1,vecshapes=1,valshapes=1,metashapes=1,levelshapes=1,kshapes=1", reach=["dataset-created", "handler-returned", "end"]),
             # client-supplied BatchItem.level (0, negative, huge) on the batch insert paths
             dict(pkg="./services", entry="VerifC12", bounds="rpclo=3,rpchi=6,levelshapes=3,idshapes=2,vecshapes=1,valshapes=1,metashapes=1,mindim=1,minp=1,minr=1,spaces=1,maxdim=1", reach=["dataset-created", "handler-returned", "end"]),
             # over-long metadata keys/values on every write path; the resulting state must snapshot and restore
@@ -335,6 +350,7 @@ PROPS["C12"] = dict(
             dict(pkg="./services", entry="VerifC12", bounds="rpclo=3,rpchi=8,mindim=1,minp=1,minr=1,spaces=1,maxdim=1,levelshapes=3", max_seconds=3000, reach=["dataset-created", "handler-returned", "end"]),
             dict(pkg="./services", entry="VerifC12", bounds="rpclo=0,rpchi=8,metashapes=4,idshapes=2,vecshapes=2,valshapes=1,levelshapes=1,mindim=1,minp=1,minr=1,spaces=1,maxdim=1", max_seconds=3000, reach=["dataset-created", "handler-returned", "end"]),
             dict(pkg="./services", entry="VerifC12", bounds="rpclo=9,rpchi=17,maxdim=2,valshapes=3", reach=["dataset-created", "handler-returned", "end"]),
+            dict(pkg="./services", entry="VerifC12", bounds="rpclo=0,rpchi=17,spaces=3,mindim=1,maxdim=1,minp=1,maxp=2,minr=1,idshapes=2,vecshapes=2,valshapes=1,metashapes=1,levelshapes=1,kshapes=1,noreplica=1", max_seconds=3000, reach=["dataset-created", "handler-returned", "end"]),
             dict(pkg="./services", entry="VerifC12", bounds="rpclo=0,rpchi=17,mindim=1,minp=1,minr=1,spaces=1,maxdim=1,det=0,idshapes=2,vecshapes=2", max_seconds=3000, reach=["dataset-created", "handler-returned", "end"]),
         ],
     },
@@ -362,6 +378,10 @@ PROPS["C14"] = dict(
             dict(pkg=".", entry="VerifC14Raft", bounds="members=2", unwind=4000, no_native=True, reach=["settled", "restarted", "end"]),
             # a third member is down while a dataset is deleted and the leader compacts: it is caught up by a snapshot
             dict(pkg=".", entry="VerifC14Raft", bounds="members=3,lagdelete=1,norestart=1", unwind=4000, no_native=True, reach=["settled", "end"]),
+            # a CRASH instead of a graceful stop: the member's process is killed at any durable write of its store (before / after a
+            # write batch or a committing transaction), restarted on the same directory; one voter, then two members incl. the join handshake
+            dict(pkg=".", entry="VerifC14Crash", bounds="members=1,creates=2,maxflush=14", unwind=4000, no_native=True, reach=["written", "restarted", "end"]),
+            dict(pkg=".", entry="VerifC14Crash", bounds="members=2,creates=1,maxflush=12,crashjoin=1", unwind=4000, no_native=True, reach=["written", "restarted", "end"]),
         ],
         "thorough": [
             dict(pkg="./storage", entry="VerifC14", bounds="ops=4,datasets=2", reach=["end"]),
@@ -373,9 +393,11 @@ PROPS["C14"] = dict(
             dict(pkg=".", entry="VerifC14Raft", bounds="members=2,maxp=2", unwind=4000, no_native=True, max_seconds=5400, reach=["settled", "restarted", "end"]),
             dict(pkg=".", entry="VerifC14Raft", bounds="members=3", unwind=4000, no_native=True, max_seconds=5400, reach=["settled", "restarted", "end"]),
             dict(pkg=".", entry="VerifC14Raft", bounds="members=3,lagdelete=1", unwind=4000, no_native=True, max_seconds=5400, reach=["settled", "restarted", "end"]),
+            dict(pkg=".", entry="VerifC14Crash", bounds="members=1,creates=3,maxflush=24", unwind=4000, no_native=True, max_seconds=5400, reach=["written", "restarted", "end"]),
+            dict(pkg=".", entry="VerifC14Crash", bounds="members=2,creates=2,maxflush=20,crashjoin=1", unwind=4000, no_native=True, max_seconds=5400, reach=["written", "restarted", "end"]),
         ],
     },
-    outside="what etcd/raft does between propose and commit (the cluster harness hands every member the same committed log); re-creation of a deleted dataset under the same id (ids are server generated); partitions assigned to the local node in the state-machine harness (their raft loading is exercised by the restart harness and by C12)",
+    outside="what etcd/raft does between propose and commit (the cluster harness hands every member the same committed log); re-creation of a deleted dataset under the same id (ids are server generated); crash harness (VerifC14Crash): one crash per history, <=2 members, <=2 creates and one delete through the bootstrap member, Badger as the API-level model (a write batch / committing transaction is atomic); partitions assigned to the local node in the state-machine harness (their raft loading is exercised by the restart harness and by C12)",
     assumptions=COMMON_ASSUME + ["the etcd raft node is a harness node that commits every proposal at once, re-delivers the stored entries after the snapshot on (re)start and appends the bootstrap membership entry on StartNode",
                                  "net.Listen, grpc.NewServer and service registration are stubs; Badger is the API-level model with contents shared per Dir"],
 )
@@ -470,11 +492,17 @@ PROPS["C20"] = dict(
             dict(pkg=".", entry="VerifC20Raft", bounds="members=3,faults=1,removal=0", unwind=4000, no_native=True, reach=["joined", "restarted", "end"]),
             # a member is down during a removal; the removed member re-joins through it before it caught up
             dict(pkg=".", entry="VerifC20Raft", bounds="members=3,rejoin=1", unwind=4000, no_native=True, reach=["joined", "end"]),
+            # a member that comes back on its data directory under ANOTHER address and joins again: if acknowledged, everybody lists the new address
+            dict(pkg=".", entry="VerifC20Raft", bounds="members=3,removal=0,readdr=1", unwind=4000, no_native=True, reach=["joined", "restarted", "end"]),
+            # crash points: either side of the join handshake (or a member later on) is killed at any durable write and restarted
+            dict(pkg=".", entry="VerifC14Crash", bounds="members=2,creates=1,maxflush=12,crashjoin=1", unwind=4000, no_native=True, reach=["written", "restarted", "end"]),
         ],
         "thorough": [
             dict(pkg=".", entry="VerifC20Raft", bounds="members=3,faults=1", unwind=4000, no_native=True, max_seconds=5400, reach=["joined", "restarted", "end"]),
             dict(pkg=".", entry="VerifC20Raft", bounds="members=3,leadercrash=1,compact=1,rejoin=1", unwind=4000, no_native=True, max_seconds=5400, reach=["joined", "restarted", "end"]),
             dict(pkg=".", entry="VerifC20Raft", bounds="members=3,leadercrash=1,vclock=1", unwind=4000, no_native=True, max_seconds=5400, reach=["joined", "restarted", "end"]),
+            dict(pkg=".", entry="VerifC20Raft", bounds="members=3,compact=1,readdr=1", unwind=4000, no_native=True, max_seconds=5400, reach=["joined", "restarted", "end"]),
+            dict(pkg=".", entry="VerifC14Crash", bounds="members=2,creates=2,maxflush=20,crashjoin=1", unwind=4000, no_native=True, max_seconds=5400, reach=["written", "restarted", "end"]),
             dict(pkg=".", entry="VerifC20Cluster", bounds="members=3", no_native=True, reach=["joined", "restarted", "end"]),
             dict(pkg=".", entry="VerifC20Cluster", bounds="members=4,nocompact=1", no_native=True, max_seconds=3000, reach=["joined", "restarted", "end"]),
             dict(pkg=".", entry="VerifC20Restart", bounds="lives=3,maxchanges=2", no_native=True, max_seconds=3000, reach=["restarted", "end"]),
@@ -482,7 +510,7 @@ PROPS["C20"] = dict(
             dict(pkg=".", entry="VerifC20Install", bounds="maxchanges=3", no_native=True, reach=["installed"]),
         ],
     },
-    outside="clusters of more than 3 members (4 in one thorough run of the shared-log harness); in the real-raft harness: more than one message fault, one leader stop and one restart per history, fault positions other than every raft message (loss with/without error, duplication) and 'the leader stops right after it acknowledged a join', goroutine schedules other than the deterministic one between harness-driven ticks, concurrent joins, address changes on re-join; in the shared-log harness etcd/raft is replaced by one committed log; restarts in the middle of a Ready (C03/C06)",
+    outside="clusters of more than 3 members (4 in one thorough run of the shared-log harness); in the real-raft harness: more than one message fault, one leader stop and one restart per history, fault positions other than every raft message (loss with/without error, duplication) and 'the leader stops right after it acknowledged a join', goroutine schedules other than the deterministic one between harness-driven ticks, concurrent joins; a member re-joining under a new address is covered for one member after all joins (restart member decision), without faults; in the shared-log harness etcd/raft is replaced by one committed log; crash points: one member (bootstrap or joiner) killed at any durable write of its store during the join handshake or a later catalogue operation (VerifC14Crash, 2 members); crashes of two members, crashes during removals",
     assumptions=COMMON_ASSUME + ["etcd/raft is a harness: the members' zero groups share one committed log; every proposal commits at once and is handed to every live member of the configuration in order (the leader's stored snapshot first when the member's next entry was compacted away); a (re)started member gets its own stored entries re-delivered after its own snapshot; StartNode appends the bootstrap membership entry with the peer Context anndb passed",
                                  "gRPC is an in-memory transport: dialling :<port> reaches the Server listening there, the AddNode stream is served by the real handler and can break before any message; net.Listen, grpc.NewServer and service registration are stubs; Badger is the API-level model with contents shared per Dir"],
     no_native_replay=True,
@@ -497,14 +525,21 @@ PROPS["C13"] = dict(
         "quick": [
             dict(pkg="./index", entry="VerifC13", bounds="cfg=0,preempt=2,init=2,ids=3,maxlevel=1,writers=1,kinds=4,race=1", reach=["joined", "end"]),
             dict(pkg="./index", entry="VerifC13", bounds="cfg=0,preempt=2,init=2,ids=3,maxlevel=1,kinds=1,race=1", reach=["joined", "end"]),
+            # one writer removing, one reader that is told "not found" and then searches
+            dict(pkg="./index", entry="VerifC13", bounds="cfg=0,preempt=2,init=2,ids=2,maxlevel=1,writers=1,minkind=1,kinds=2,minread=2,readkinds=3", reach=["joined", "end"]),
             dict(pkg="./index", entry="VerifC13", bounds="cfg=0,preempt=2,init=2,ids=3,maxlevel=1,kinds=2,race=1", known_no_replay=True, vio_grace=0, reach=["joined", "end"]),
+            # two concurrent removes with a third live item (the known remove||remove finding shows only then since fix 56b097d)
+            dict(pkg="./index", entry="VerifC13", bounds="cfg=0,preempt=2,init=3,ids=3,maxlevel=0,minkind=1,kinds=2", known_no_replay=True, vio_grace=0, reach=["joined", "end"]),
         ],
         "thorough": [
             dict(pkg="./index", entry="VerifC13", bounds="cfg=0,preempt=3,init=2,ids=3,maxlevel=1,writers=1,kinds=4,race=1", max_seconds=3000, reach=["joined", "end"]),
             dict(pkg="./index", entry="VerifC13", bounds="cfg=4,preempt=2,init=3,ids=4,maxlevel=1,writers=1,kinds=4,race=1", max_seconds=3000, reach=["joined", "end"]),
             dict(pkg="./index", entry="VerifC13", bounds="cfg=2,preempt=2,init=2,ids=3,maxlevel=1,writers=1,kinds=4,race=1", max_seconds=3000, reach=["joined", "end"]),
             dict(pkg="./index", entry="VerifC13", bounds="cfg=0,preempt=1,init=2,ids=3,maxlevel=1,writers=1,kinds=4,threads=3,race=1", max_seconds=3000, reach=["joined", "end"]),
+            dict(pkg="./index", entry="VerifC13", bounds="cfg=0,preempt=2,init=2,ids=2,maxlevel=1,writers=1,kinds=2,readkinds=3", max_seconds=3000, reach=["joined", "end"]),
+            dict(pkg="./index", entry="VerifC13", bounds="cfg=4,preempt=2,init=3,ids=3,maxlevel=1,writers=1,minkind=1,kinds=2,minread=2,readkinds=3", max_seconds=3000, reach=["joined", "end"]),
             dict(pkg="./index", entry="VerifC13", bounds="cfg=0,preempt=2,init=2,ids=3,maxlevel=1,kinds=2,race=1", known_no_replay=True, vio_grace=0, max_seconds=3000, reach=["joined", "end"]),
+            dict(pkg="./index", entry="VerifC13", bounds="cfg=0,preempt=2,init=3,ids=3,maxlevel=1,minkind=1,kinds=2", known_no_replay=True, vio_grace=0, max_seconds=3000, reach=["joined", "end"]),
         ],
     },
     outside="weak-memory effects beyond the happens-before criterion; races between operation pairs/ids/levels outside the bound; races the over-approximated happens-before of the channel and rwmutex models orders; more than 3 goroutines; more than one operation per goroutine; vectors are fixed 1-D points; timing/linearization points of searches beyond 'present initially or inserted concurrently'",
@@ -525,5 +560,5 @@ def _c15(pid, tier, seed):
 
 
 PROPS["C15"] = dict(custom=_c15, level="model_checking",
-                    technique="symbolic execution of the disassembled AVX/SSE kernels with z3 (asmsmt): len and base addresses as bit-vector variables, lanes as exact-integer terms, per-lane Float32 lemmas",
+                    technique="symbolic execution of the disassembled AVX/SSE kernels with z3 (asmsmt): len and base addresses as bit-vector variables, lanes as exact-integer terms, per-lane Float32 lemmas; plus bounded symbolic execution (gosmt) of the Go wrappers around the kernels with two concurrent callers and happens-before race detection (kernel = stub with its memory effect)",
                     runs={"quick": [], "thorough": []})
